@@ -319,6 +319,7 @@ package bcl
 //@   assert [C02] the_slot_written_is_the_resolved_one: at emitUvarint#1: $slot >= 0 ==> $x == $slot
 //@   assert [C02] a_read_takes_the_resolved_variable_else_a_field: at emitOp#2: ($slot >= 0 ==> $op == opGETLOCAL) && ($slot < 0 ==> $op == opGETFIELD)
 //@   assert [C02] the_slot_read_is_the_resolved_one: at emitUvarint#2: $slot >= 0 ==> $x == $slot
+//@   assert [C02,C03,C17] a_name_is_rejected_here_only_as_an_undefined_variable_at_top_level: at error: $slot < 0 && p.scope.depth == 0
 //@   requires [C17] called_on_the_identifier_token: p.hadError || p.prev.typ != tSEMICOLON
 //@   ensures [C17] no_terminator_inside_an_expression: p.hadError || p.prev.typ != tSEMICOLON
 //@   assert [C17,C01] assignment_is_right_associative: at expr.parsePrecedence#1: $prec == precAssign
